@@ -40,6 +40,9 @@ func init() {
 			{ID: "C16-N3-second-droppable", File: "core/deadline.go", Expect: "N3|input",
 				Old: "\t\t\tif deadline.Before(currDeadline) {\n\t\t\t\tsetCurrState()\n\t\t\t}",
 				New: "\t\t\tif deadline.Before(currDeadline) {\n\t\t\t\tsetCurrState()\n\t\t\t}\n\n\t\t\tif len(duties) > 4096 {\n\t\t\t\tdelete(duties, input.duty)\n\t\t\t}"},
+			{ID: "C16-N5-skip-recompute-when-empty", File: "core/deadline.go", Expect: "N5",
+				Old: "\t\t\tdelete(duties, currDuty)\n\t\t\tsetCurrState()",
+				New: "\t\t\tdelete(duties, currDuty)\n\n\t\t\tif len(duties) > 0 {\n\t\t\t\tsetCurrState()\n\t\t\t}"},
 			{ID: "C16-N4-latest", File: "core/deadline.go", Expect: "N4",
 				Old: "\t\tif currDeadline.After(dutyDeadline) {",
 				New: "\t\tif currDeadline.Before(dutyDeadline) {"},
@@ -324,6 +327,49 @@ func c16(c *rt.Ctx) {
 				c.Check("run delete(duties) only after delivered report", call.Pos(), !undelivered,
 					"the expired duty is deleted on a path on which its report was not delivered (select falls through without sending): "+an.PathString(c.P, path))
 			}
+		}
+		if n == 0 {
+			c.Bail("no removal from the duty set found")
+		}
+	})
+
+	c.Rule("N5", 1, func() {
+		// after an expired duty is removed from the set, the timer state (current duty, deadline, timer) is
+		// recomputed on every path back to the event loop: otherwise the stale, past deadline stays armed and no
+		// later registration can re-arm it (N2 only re-arms for a deadline earlier than the current one)
+		n := 0
+		for _, in := range an.Instrs(run, false) {
+			call, ok := in.(*ssa.Call)
+			if !ok {
+				continue
+			}
+			b, ok := call.Call.Value.(*ssa.Builtin)
+			if !ok || b.Name() != "delete" {
+				continue
+			}
+			if m, ok := call.Call.Args[0].Type().Underlying().(*types.Map); !ok || an.TypeName(m.Key()) != "core.Duty" {
+				continue
+			}
+			n++
+			l := an.InnermostLoop(run, call.Block())
+			opt := an.PassOpt{}
+			if l != nil {
+				opt.StopAt = func(b *ssa.BasicBlock) bool { return b == l.Header }
+			}
+			path, esc := an.EscapePath(call, func(x ssa.Instruction) bool {
+				ci, ok := x.(*ssa.Call)
+				if !ok {
+					return false
+				}
+				mc, ok := ci.Call.Value.(*ssa.MakeClosure)
+				if !ok {
+					return false
+				}
+				f := mc.Fn.(*ssa.Function)
+				return len(an.Calls(f, an.Static("core.getCurrDuty"), false)) > 0 && len(an.Calls(f, an.Invoke("github.com/jonboulle/clockwork.Clock.NewTimer"), false)) > 0
+			}, opt)
+			c.Check("run delete(duties)→recompute timer state", call.Pos(), !esc,
+				"after removing the expired duty the next duty/deadline/timer are not recomputed on path "+an.PathString(c.P, path)+": the stale deadline stays current and later registrations never arm a timer")
 		}
 		if n == 0 {
 			c.Bail("no removal from the duty set found")
